@@ -379,37 +379,10 @@ func (g *gen) ambientOne(w, twin world, hasEmpty bool, extraTags []string) {
 		Sample: map[string]any{"kind": "ambient", "world": w, "attached": o.attached, "policies": o.nconv}})
 }
 
-// ambientFinding names the known finding (known_findings.txt) an ambient case is an instance of, from the
-// winning (mesh, namespace, workload) policies alone; "" when the case is none.  (K9 is decided in ambientOne by
-// re-running the real code on the respelled world.)
+// ambientFinding names the known finding (known_findings.txt) an ambient case is an instance of from the winning
+// policies alone.  None is left: K2, the DISABLE port exception and the UNSET namespace policy are repaired in
+// /repo (06bf447, 24c83bf, 45faab8); K9 is decided in ambientOne by re-running the real code on the respelled world.
 func ambientFinding(l levels) string {
-	if l.wl == nil || len(l.wl.Ports) == 0 {
-		return ""
-	}
-	set := func(p *PA) int {
-		if p == nil {
-			return mUnset
-		}
-		return p.Mtls
-	}
-	parent := mPermissive // effective namespace/mesh mode
-	if set(l.mesh) != mUnset {
-		parent = set(l.mesh)
-	}
-	if set(l.ns) != mUnset {
-		parent = set(l.ns)
-	}
-	wm := l.wl.Mtls
-	hasP := hasPort(l.wl, func(m int) bool { return m == mPermissive })
-	hasD := hasPort(l.wl, func(m int) bool { return m == mDisable })
-	switch {
-	case wm == mUnset && parent == mStrict && hasD && !hasP:
-		// convertedSelectorPeerAuthentications looks for PERMISSIVE port exceptions only: the static strict policy stays attached
-		return "C10-disable-port-under-strict-parent"
-	case wm == mUnset && l.ns != nil && l.ns.Mtls == mUnset && set(l.mesh) == mStrict && hasP:
-		// convertPeerAuthentication: "nsCfg != nil && !strict(nsCfg)" treats an UNSET namespace policy as non-strict
-		return "C10-unset-ns-policy-masks-mesh-strict"
-	}
 	return ""
 }
 
@@ -493,8 +466,8 @@ func TestGen(t *testing.T) {
 			return PA{Name: 1, Ns: 1, Time: 300, Sel: 2, Labels: lbl, Mtls: m, Ports: []portMode{{8080, pm}}}
 		}
 		g.ambientE2E(world{Root: 0, WlNs: 1, Labels: lbl, All: []PA{mesh, wlp(mPermissive, mStrict)}}, "witness:K2-repaired")
-		g.ambientE2E(world{Root: 0, WlNs: 1, Labels: lbl, All: []PA{mesh, wlp(mUnset, mDisable)}}, "witness:disable-port")
-		g.ambientE2E(world{Root: 0, WlNs: 1, Labels: lbl, All: []PA{mesh, {Name: 2, Ns: 1, Time: 200, Sel: 0, Mtls: mUnset}, wlp(mUnset, mPermissive)}}, "witness:unset-ns")
+		g.ambientE2E(world{Root: 0, WlNs: 1, Labels: lbl, All: []PA{mesh, wlp(mUnset, mDisable)}}, "witness:disable-port-repaired")
+		g.ambientE2E(world{Root: 0, WlNs: 1, Labels: lbl, All: []PA{mesh, {Name: 2, Ns: 1, Time: 200, Sel: 0, Mtls: mUnset}, wlp(mUnset, mPermissive)}}, "witness:unset-ns-repaired")
 		g.ambientE2E(world{Root: 0, WlNs: 1, Labels: lbl, All: []PA{{Name: 2, Ns: 1, Time: 200, Sel: 1, Mtls: mStrict}, wlp(mUnset, mPermissive)}}, "witness:K9")
 		// the same inputs through convertPeerAuthentication alone
 		w1 := wlp(mPermissive, mStrict)
